@@ -57,6 +57,35 @@ def grid_names_of(f_node: ast.FunctionDef, w: GuardWalk) -> Set[str]:
     return out
 
 
+FAN_FUNCTIONS = ('cached_compute_rays_fancy', 'cached_compute_rays', 'compute_rays_fancy',
+                 'compute_rays')
+
+
+def is_fan_callee(module, w: GuardWalk, fe: ast.AST, depth: int = 3) -> bool:
+    """the callee expression denotes one of the ray-fan functions of utils/raytracing.py: its
+    name, a local bound to one, or an entry of a module-level table all of whose values are fan
+    functions (`_ray_methods[ray_method]`)"""
+    if depth < 0:
+        return False
+    if isinstance(fe, ast.Name):
+        ds = w.defs.get(fe.id, [])
+        if ds:
+            return all(d[0] == 'value' and is_fan_callee(module, w, d[1], depth - 1) for d in ds)
+        return fe.id in FAN_FUNCTIONS and fe.id not in w.params
+    tab = None
+    if isinstance(fe, ast.Subscript) and isinstance(fe.value, ast.Name):
+        tab = fe.value.id
+    if isinstance(fe, ast.Call) and isinstance(fe.func, ast.Attribute) and \
+            fe.func.attr == 'get' and isinstance(fe.func.value, ast.Name) and \
+            len(fe.args) == 2 and is_fan_callee(module, w, fe.args[1], depth - 1):
+        tab = fe.func.value.id
+    if tab is None or w.defs.get(tab) or tab in w.params:
+        return False
+    vals = module.assigns.get(tab, [])
+    return len(vals) == 1 and isinstance(vals[0], ast.Dict) and bool(vals[0].values) and \
+        all(isinstance(v, ast.Name) and v.id in FAN_FUNCTIONS for v in vals[0].values)
+
+
 class PosClassifier:
     def __init__(self, f: Func, w: GuardWalk, grid_names: Set[str]):
         self.f, self.w, self.grid_names = f, w, grid_names
@@ -87,9 +116,8 @@ class PosClassifier:
         if isinstance(e, ast.Name):
             ds = self.w.defs.get(e.id, [])
             return bool(ds) and all(d[0] == 'value' and self.rays_expr(d[1]) for d in ds)
-        if isinstance(e, ast.Call) and src(e.func) in (
-                'cached_compute_rays_fancy', 'cached_compute_rays', 'compute_rays_fancy',
-                'compute_rays') and len(e.args) == 2:
+        if isinstance(e, ast.Call) and len(e.args) == 2 and not e.keywords and \
+                is_fan_callee(self.f.module, self.w, e.func):
             a = e.args[1]
             return src(a).endswith('.area') and is_grid_expr(a.value, self.grid_names)
         return False
